@@ -1123,3 +1123,66 @@ package runtime
 //@   arith int
 //@   modifies nothing
 //@   ensures result != nil && *result == GoCont{}
+
+// ---------------------------------------------------------------------------
+// C09: coroutines - the sequential legality table.  Channels and goroutines
+// are outside the verifier's model: the two hand-off primitives are assumed
+// (sendResumeValues wakes the other side - counted by the ghost counter `wake` -
+// and getResumeValues blocks until woken; both may change any state).  What is
+// proved is which transitions the operations make before each hand-off, and
+// that operations on a thread in the wrong state change nothing.
+// ---------------------------------------------------------------------------
+
+//@ func (*Thread).sendResumeValues
+//@   trusted
+//@   modifies everything()
+//@   ghost wake += 1
+
+//@ func (*Thread).getResumeValues
+//@   trusted
+//@   modifies everything()
+//@   exits any
+
+//@ func (*Thread).Resume
+//@   prop C09
+//@   arith int
+//@   norte
+//@   requires t != nil && caller != nil
+//@   modifies everything()
+//@   exits any
+//@   ensures old(t.status) == ThreadDead ==> result1 != nil && ghost(wake) == 0
+//@   ensures old(t.status) != ThreadSuspended ==> result1 != nil && ghost(wake) == 0   // only a suspended coroutine can be resumed; nothing is woken otherwise
+//@   ensures old(t.status) == ThreadSuspended ==> ghost(wake) == 1
+//@   assert_before_call sendResumeValues: old(t.status) == ThreadSuspended && old(caller.status) == ThreadOK && $t == t && t.status == ThreadOK && t.caller == caller && caller.status == ThreadOK && $err == nil && $exception == nil
+
+//@ func (*Thread).Close
+//@   prop C09
+//@   arith int
+//@   norte
+//@   requires t != nil && caller != nil && t != caller
+//@   modifies everything()
+//@   exits any
+//@   ensures old(t.status) == ThreadDead ==> result0 && result1 == old(t.closeErr) && ghost(wake) == 0
+//@   ensures old(t.status) != ThreadSuspended && old(t.status) != ThreadDead ==> !result0 && result1 == nil && ghost(wake) == 0
+//@   ensures old(t.status) == ThreadSuspended ==> result0 && ghost(wake) == 1   // a suspended coroutine is always woken so that its goroutine can unwind and terminate
+//@   assert_before_call sendResumeValues: old(t.status) == ThreadSuspended && old(caller.status) == ThreadOK && $t == t && t.status == ThreadOK && t.caller == caller && typeis($exception, threadClose)
+
+//@ func (*Thread).Yield
+//@   prop C09
+//@   arith int
+//@   norte
+//@   requires t != nil && (t.caller != nil ==> t.caller != t)
+//@   modifies everything()
+//@   exits any
+//@   ensures old(t.status) == ThreadOK && old(t.caller) == nil ==> result1 != nil && ghost(wake) == 0
+//@   assert_before_call sendResumeValues: old(t.status) == ThreadOK && $t == old(t.caller) && old(t.caller.status) == ThreadOK && t.status == ThreadSuspended && t.caller == nil && $err == nil && $exception == nil
+
+//@ func (*Thread).end
+//@   prop C09
+//@   arith int
+//@   norte
+//@   nocover
+//@   requires t != nil && t.caller != nil && t.caller != t
+//@   modifies everything()
+//@   exits any
+//@   assert_before_call sendResumeValues: old(t.status) == ThreadOK && $t == old(t.caller) && $exception == exception
